@@ -6,13 +6,18 @@ walk under the encoder's sharing keys, back references, compact witness stream) 
 `Prog.decodeRedeem` are what the driver runs; their outputs are compared with
 `to_vec_with_witness` / `to_vec_without_witness` / `RedeemNode::decode` on every generated program,
 and the driver checks on every `enc R` operation that its own decoder accepts its own encoding with
-the same roots.  The round trip is proved layer by layer; the assembled statement is `_partial`.
+the same roots.  The round trip is proved layer by layer and assembled for programs in the decoder's
+canonical form (`roundtrip_canonical`); for programs that the encoder renumbers or merges (not in
+post-order, unused nodes, equal identity roots at different nodes) the assembled statement stays
+`roundtrip_partial` + the driver's run-time check.
 -/
 import SimplicityModel.Prog.Codec
 import SimplicityModel.Prog.JetsElements
 import SimplicityModel.Roundtrip
 import SimplicityModel.Value
 import SimplicityModel.Infer
+import SimplicityModel.Prog.RoundtripProps
+import SimplicityModel.Prog.JetsElementsProps
 
 namespace Props.C01
 open Wire Prog
@@ -80,5 +85,141 @@ theorem roundtrip_partial (ns : List (WNode JetsE.J)) (h0 : ns ≠ []) (hl : ns.
     refine ⟨by omega, ?_⟩
     intro b hb
     simp [List.eq_of_mem_replicate hb]
+
+/-- the Elements jet table the driver runs reads back the name it prints for a jet -/
+theorem elements_ofName_nameOf (j : JetsE.J) : JetsE.ofName (JetsE.nameOf j) = some j :=
+  JetsE.ofName_nameOf j
+
+/-- **Round trip, assembled** (about the functions the driver runs: `Prog.encode`, redeem mode, and
+`Prog.decodeRedeem`).  Let `p` be a plan with arrows, annotations and witness bit strings that is in
+the decoder's canonical form (`Prog.CanonicalPlan`, witnessed by a wire node list `N`): `N` is a
+non-empty list of fewer than 2^32 well-formed nodes that passes the canonical-order check and
+converts to `p`; no disconnect node is open; `p` is well typed as a program with exactly these
+arrows; every witness node carries the compact bits of a value of its target type; the annotations
+are those of `p`; the identity roots of the non-hidden nodes are pairwise different.  Then
+
+* the encoder succeeds and writes exactly `N` (byte padded) and the witness values in index order
+  (byte padded), and
+* the decoder accepts these two bit strings and returns the same plan, the same arrows, the same
+  annotations (so the same CMR/IHR/AMR/cost at every node) and the same witness values.
+
+Hypothesis on the tables: the jet table reads back the names it prints (`elements_ofName_nameOf` for
+the driver's table).  What is *not* covered (and is checked at run time by the driver on every
+generated program, `roundtrip_partial` being the proved first stage): plans that are not already in
+canonical form — nodes out of post-order, unused nodes, or distinct nodes with equal identity roots,
+which the encoder renumbers/merges, so that the decoded plan is a quotient of the original and the
+equality of arrows needs `reinference_returns_original_types` along that quotient. -/
+theorem roundtrip_canonical (tb : Tables) (hof : ∀ j, tb.ofName (tb.nameOf j) = some j)
+    (N : List (WNode tb.J)) (p : Plan) (arrows : Array (BM4.Ty × BM4.Ty)) (an : Array Annot)
+    (wit : Nat → Option (List Bool)) (H : CanonicalPlan tb N p arrows an wit) :
+    encode tb.jc tb.ofName p an true wit =
+      some (padToByte (encProgram tb.jc N), padToByte ((wIdx p.toList 0).filterMap wit).flatten) ∧
+    decodeRedeem tb (padToByte (encProgram tb.jc N))
+        (padToByte ((wIdx p.toList 0).filterMap wit).flatten) =
+      .ok ⟨p, arrows, (wIdx p.toList 0).filterMap (fun j => (wit j).map (fun b => (j, b))), an⟩ :=
+  Prog.roundtrip_canonical tb hof N p arrows an wit H
+
+/-- the driver's tables -/
+def elementsTables : Tables :=
+  ⟨JetsE.J, JetsE.jc, JetsE.nameOf, JetsE.ofName, JetsE.jetTy, JetsE.jetCmr, JetsE.jetCost⟩
+
+/-- **Every decoded program round-trips**: whatever `decodeRedeem` returns is in canonical form, so
+encoding it and decoding again returns the same plan, arrows, annotations and witness values
+(`decode ∘ encode ∘ decode = decode`, with C02's `decodeRedeem_canonical` saying that the middle
+encoding is the original input). -/
+theorem decoded_is_canonical (tb : Tables) (prog wit : List Bool) (d : Decoded)
+    (h : decodeRedeem tb prog wit = .ok d) :
+    ∃ N, CanonicalPlan tb N d.plan d.arrows d.annots (fun i => (d.wits.find? (·.1 = i)).map (·.2)) := by
+  obtain ⟨ns, rest, wrest, hp, hcl, hcan, hcv, hdisc, hinf, hrw, hcl2, han, hihr⟩ :=
+    decodeRedeem_inv tb prog wit d h
+  obtain ⟨hprog, hne, hlt, hok⟩ := decProgram_canonical tb.jc prog ns rest hp
+  exact ⟨ns, hne, hlt, hok, hcan, hcv, hdisc, hinf,
+    readGo_wit_typed d.arrows d.plan.toList 0 wit d.wits wrest hrw, han, hihr⟩
+
+/-- non-vacuity of `roundtrip_canonical` (and of C02's `decodeRedeem_canonical`): the one-node
+program `unit` with the Elements tables is in canonical form — its identity root is some SHA-256
+value that is not evaluated here, and a single node has nothing to collide with — so its encoding
+is accepted by the whole of `decodeRedeem`. -/
+theorem unit_canonical :
+    ∃ an, CanonicalPlan elementsTables [.unit] #[Node.unit] #[(.one, .one)] an (fun _ => none) := by
+  obtain ⟨a, ha⟩ : ∃ a, annots JetsE.jetCmr JetsE.jetCost #[Node.unit] #[(.one, .one)] (fun _ => none) = some #[a] := by
+    simp [annots, annots.go, annotNode]
+  refine ⟨#[a], by simp, by decide, ⟨trivial, trivial⟩, by decide, by rfl, ?_, ?_, ?_, ha, ?_⟩
+  · intro nd hnd a' e
+    simp at hnd
+    subst hnd
+    cases e
+  · -- type inference on the three equations of `unit : 1 → 1`
+    have hc : constraints JetsE.jetTy #[Node.unit] true =
+        some [(tgt 0, .one), (src 0, .one), (tgt 0, .one)] := by rfl
+    have hu : ∀ n, Inf.unify (n + 4) [(tgt 0, .one), (src 0, .one), (tgt 0, .one)] [] =
+        .ok [(0, .one), (1, .one)] := fun _ => rfl
+    show infer JetsE.jetTy #[Node.unit] true = .ok #[(.one, .one)]
+    unfold infer
+    rw [hc]
+    have : unifyFuel = (unifyFuel - 4) + 4 := by decide
+    rw [this]
+    simp only [hu]
+    congr 1
+    have : Array.range #[Node.unit].size = #[0] := by decide
+    rw [this]
+    simp [Inf.closeUnit, Inf.lookup, Inf.Tm.eval, tyOfInf]
+  · intro j hj
+    simp [wIdx] at hj
+  · simp [ihrList, List.range, List.range.loop, List.eraseDups_cons]
+
+example : ∃ pb wb d, encode JetsE.jc JetsE.ofName #[Node.unit] d.annots true (fun _ => none) = some (pb, wb) ∧
+    decodeRedeem elementsTables pb wb = .ok d ∧ d.plan = #[Node.unit] ∧ d.arrows = #[(.one, .one)] := by
+  obtain ⟨an, H⟩ := unit_canonical
+  obtain ⟨h1, h2⟩ := roundtrip_canonical elementsTables elements_ofName_nameOf _ _ _ _ _ H
+  exact ⟨_, _, ⟨#[Node.unit], #[(.one, .one)], _, an⟩, h1, h2, rfl, rfl⟩
+
+/-- a three-node program with a witness: `comp witness unit : 1 → 1` (the witness has type `1 → 1`,
+its value is the unit value, compact bits `[]`) -/
+def compWitnessUnit : Plan := #[Node.witness, Node.unit, Node.comp 0 1]
+
+/-- non-vacuity of `roundtrip_canonical` on a program with several nodes and a witness: every
+hypothesis of `CanonicalPlan` holds for `comp witness unit` — canonical order, conversion, type
+inference (evaluated), witness typing, existence of the annotations — *except* that the pairwise
+difference of its three identity roots, which are SHA-256 values, is not evaluated in the kernel and
+stays a hypothesis here (the driver evaluates it on every generated program). -/
+theorem compWitnessUnit_canonical :
+    ∃ an, annots JetsE.jetCmr JetsE.jetCost compWitnessUnit #[(.one, .one), (.one, .one), (.one, .one)]
+        (fun i => if i = 0 then some [] else none) = some an ∧
+      ((ihrList compWitnessUnit an).eraseDups.length = (ihrList compWitnessUnit an).length →
+        CanonicalPlan elementsTables [.witness, .unit, .comp 0 1] compWitnessUnit
+          #[(.one, .one), (.one, .one), (.one, .one)] an (fun i => if i = 0 then some [] else none)) := by
+  obtain ⟨an, ha⟩ : ∃ an, annots JetsE.jetCmr JetsE.jetCost compWitnessUnit
+      #[(.one, .one), (.one, .one), (.one, .one)] (fun i => if i = 0 then some [] else none) = some an := by
+    simp [annots, annots.go, annotNode, compWitnessUnit]
+  refine ⟨an, ha, fun hihr => ⟨by simp, by decide, ⟨trivial, trivial, ⟨by decide, by decide⟩, trivial⟩,
+    by decide, by rfl, ?_, ?_, ?_, ha, hihr⟩⟩
+  · intro nd hnd a' e
+    subst e
+    simp [compWitnessUnit] at hnd
+  · have hc : constraints JetsE.jetTy compWitnessUnit true =
+        some [(.var 3, .one), (.var 1, .var 2), (.var 4, .var 0), (.var 5, .var 3), (.var 4, .one), (.var 5, .one)] := by rfl
+    have hu : ∀ n, Inf.unify (n + 7)
+        [(.var 3, .one), (.var 1, .var 2), (.var 4, .var 0), (.var 5, .var 3), (.var 4, .one), (.var 5, .one)] [] =
+        .ok [(0, .one), (5, .one), (4, .one), (1, .var 2), (3, .one)] := fun _ => rfl
+    show infer JetsE.jetTy compWitnessUnit true = .ok #[(.one, .one), (.one, .one), (.one, .one)]
+    unfold infer
+    rw [hc]
+    have : unifyFuel = (unifyFuel - 7) + 7 := by decide
+    rw [this]
+    simp only [hu]
+    congr 1
+    have : Array.range compWitnessUnit.size = #[0, 1, 2] := by decide
+    rw [this]
+    simp [Inf.closeUnit, Inf.lookup, Inf.Tm.eval, tyOfInf]
+  · intro j hj
+    simp [wIdx, compWitnessUnit] at hj
+    subst hj
+    exact ⟨[], .unit, by simp, by rfl⟩
+
+#print axioms roundtrip_canonical
+#print axioms compWitnessUnit_canonical
+#print axioms decoded_is_canonical
+#print axioms unit_canonical
 
 end Props.C01
